@@ -88,15 +88,16 @@ class NamespaceTree:
         """Get the 'fully qualified namespace identifiers' (FQN) of this class instance
         precluding all parent scope names. If the current node is the top of the tree then
         an empty NamespaceIds instance is replied."""
+        # walk the parent chain iteratively: a recursive walk exhausts the interpreter stack on
+        # deeply nested namespaces
         fqn_items: List[NamespaceIds] = []
-        if self.parent:
-            parent_fqn = self.parent.fqn
-            if parent_fqn:
-                fqn_items.append(parent_fqn)
+        node = self
+        while node is not None:
+            if node.scope_name:
+                fqn_items.append(node.scope_name)
+            node = node.parent
 
-        if self.scope_name:
-            fqn_items.append(self.scope_name)
-
+        fqn_items.reverse()
         return sum_namespaceids_items(fqn_items)
 
     def fqn_member_name(self, member_name: NamespaceIds) -> NamespaceIds:
